@@ -48,6 +48,9 @@ pub struct ConnFaults {
     pub coalesce: bool,
     /// send window while the peer is not reading (bytes)
     pub window: usize,
+    /// platform flavour: an expired socket timeout is reported as `TimedOut` (Windows) instead of
+    /// `WouldBlock` (Unix)
+    pub timeout_is_timed_out: bool,
 }
 
 pub struct ConnInfo {
@@ -1181,8 +1184,9 @@ pub(crate) fn sock_read(k: &K, sock: usize, buf: &mut [u8]) -> std::io::Result<u
         if let Some(dl) = dl {
             if g.now >= dl {
                 g.history.fault("read-timeout");
-                finish(&mut g, Err(E::WouldBlock));
-                return Err(E::WouldBlock.into());
+                let kind = if g.socks[sock].faults.timeout_is_timed_out { E::TimedOut } else { E::WouldBlock };
+                finish(&mut g, Err(kind));
+                return Err(kind.into());
             }
         }
         let (g2, _timed_out) = block(k, g, me, WaitOn::Sock(sock), dl);
@@ -1240,7 +1244,8 @@ pub(crate) fn sock_write(k: &K, sock: usize, buf: &[u8]) -> std::io::Result<usiz
                     if g.now >= dl {
                         g.history.fault("write-timeout");
                         g.log(me, "write-timeout", sock as u64, 0);
-                        return Err(E::WouldBlock.into());
+                        let kind = if g.socks[sock].faults.timeout_is_timed_out { E::TimedOut } else { E::WouldBlock };
+                        return Err(kind.into());
                     }
                 }
                 let (g2, _) = block(k, g, me, WaitOn::Sock(sock), write_deadline);
